@@ -254,6 +254,22 @@ def random_shard(seed, n_examples):
     return stats
 
 
+def chain_shard(b, p):
+    """deterministic chains (ir.chain_programs): the output of one operation, with the internal form that operation gave it, is the
+    input of the next together with the first operation's own operands; every step is compared with the Python model"""
+    stats = core.Stats()
+    known = core.load_known("C05")
+    found = {}
+    for prog in ir.chain_programs(b, p):
+        msg, n = model_check(prog)
+        stats.case(prog, n >= 2, ("chain:" + "-".join(s_[1] for s_ in prog["stmts"] if s_[0] == "op")[:40],), sample_cap=1)
+        if msg:
+            key = "chain." + "-".join(s_[1] for s_ in prog["stmts"] if s_[0] == "op")
+            found.setdefault(key, {"case": dict(prog, chain=True), "key": key, "msg": msg})
+    stats.violations = list(found.values())
+    return stats
+
+
 def model_check(prog):
     """Multi-statement program against a Python model kept by the harness: every integer/boolean value is modelled by the
     value the reference semantics gives for its operation on the MODEL values of its operands, so a wrong result and an
@@ -333,7 +349,7 @@ def program_shard(seed, n_examples):
 
 def replay(case):
     """case is the single-op program"""
-    if case.get("part") == "program":
+    if case.get("part") == "program" or case.get("chain"):
         return model_check(case)[0]
     stmts = case["stmts"]
     opstmt = stmts[-1]
@@ -380,6 +396,7 @@ def run(ctx):
     total.merge_json(core.run_shards("harness.checks.c05", "wide_grid_shard", [dict(p=pp) for pp in ("bn128", "bls12-381")]).to_json())
     total.merge_json(core.run_shards("harness.checks.c05", "random_shard",
                                      [dict(seed=ctx.seed * 1000 + i, n_examples=nrand) for i in range(nshards)]).to_json())
+    total.merge_json(core.run_shards("harness.checks.c05", "chain_shard", [dict(b=8, p="bn128"), dict(b=16, p="bls12-381"), dict(b=4, p="curve25519")]).to_json())
     total.merge_json(core.run_shards("harness.checks.c05", "program_shard",
                                      [dict(seed=ctx.seed * 1000 + 500 + i, n_examples=120 if ctx.tier == "quick" else 3000) for i in range(8)]).to_json())
     total.extra["grids_enumerated_completely"] = [{"bitlength": b, "field": p, "cells": len(cs)} for b, p in grids]
